@@ -164,7 +164,9 @@ def ev(F, x, selfobj=None, lazy=False, idxmode="series"):
     if e == "self":
         return selfobj
     if e == "idx":
-        return F.index if idxmode == "raw" else F.index.to_series()
+        return F.index
+    if e == "idxs":
+        return F.index.to_series()
     if e == "const":
         return x["v"]
     if e == "bin":
@@ -207,6 +209,8 @@ def apply_op(F, op, lazy=False, idxmode="series", G=None):
     k = op["op"]
     E = lambda x, base=F: ev(base, x, None, lazy, idxmode)    # noqa: E731
     none = lambda v: None if v == NA else v                  # noqa: E731
+    if k == "seq":
+        return apply_op(apply_op(F, op["first"], lazy, idxmode), op["second"], lazy, idxmode)
     if k == "series":
         return E(op["x"])
     if k == "filter":
@@ -220,6 +224,9 @@ def apply_op(F, op, lazy=False, idxmode="series", G=None):
     if k == "fmap":
         F2 = F[list(op["cols"])]
         return ev(F2, op["x"], F2, lazy, idxmode)
+    if k == "fmapcol":
+        F2 = F[list(op["cols"])]
+        return ev(F2, op["x"], F2, lazy, idxmode)[op["c"]]
     if k == "rename":
         return F.rename(columns={a: b for a, b in op["ren"]})
     if k == "head":
@@ -261,7 +268,7 @@ def pandas_reference(T, layout, op, T2=None):
         if op["op"] == "tail":
             F = F.iloc[len(F) - layout[-1]:]
         G = to_pandas(T2) if T2 is not None else None
-        return table_of(apply_op(F, op, lazy=False, idxmode="raw", G=G))
+        return table_of(apply_op(F, op, lazy=False, G=G))
     except Exception as ex:  # noqa: BLE001 - the reference raises: recorded
         return {"raised": type(ex).__name__}
 
